@@ -41,7 +41,7 @@ def handle (line : String) : String :=
       let m := match Patch.createSeek la lb with
         | none => "none"
         | some patch => "patch=" ++ showContent patch
-      answer "=" m [] (some m)
+      answer "=" m ["tie"] (some m)
     | _, _ => bad
   | _ => bad
 
